@@ -793,3 +793,660 @@ Proof.
   intros H1 H2 H3 HX HF HR HT.
   destruct g1 as [L|], g2 as [f|], g3 as [r|], X as [x|], T as [|c T']; cbn [opt_ok] in *; san_facts; san_eval.
 Qed.
+
+Lemma deco_cases c : is_deco_ch c = true -> c = 33 \/ c = 63 \/ c = 43 \/ c = 35.
+Proof. unfold is_deco_ch. lia. Qed.
+Lemma deco_tail_ok d : deco_str d = true -> tail_ok d.
+Proof.
+  destruct d as [|c d]; [exact (fun _ => I)|]. cbn [deco_str forallb]. intros H. apply andb_prop in H. destruct H as (H & _).
+  apply deco_cases in H. destruct H as [-> | [-> | [-> | ->]]]; repeat split; reflexivity.
+Qed.
+Lemma san_g6_deco d : deco_str d = true -> san_g6 d = None.
+Proof.
+  destruct d as [|c d]; [reflexivity|]. cbn [deco_str forallb]. intros H. apply andb_prop in H. destruct H as (H & _).
+  apply deco_cases in H. destruct H as [-> | [-> | [-> | ->]]]; reflexivity.
+Qed.
+Lemma prom_cases c : is_prom_ch c = true -> c = 78 \/ c = 66 \/ c = 82 \/ c = 81.
+Proof. unfold is_prom_ch. lia. Qed.
+Lemma san_g6_eq P d : is_prom_ch P = true -> san_g6 (61 :: P :: d) = Some P.
+Proof. intros H. unfold san_g6. rewrite H. reflexivity. Qed.
+Lemma san_g6_noeq P d : is_prom_ch P = true -> san_g6 (P :: d) = Some P.
+Proof. intros H. apply prom_cases in H. destruct H as [-> | [-> | [-> | ->]]]; reflexivity. Qed.
+Lemma prom_tail_ok P d : is_prom_ch P = true -> tail_ok (P :: d).
+Proof. intros H. apply prom_cases in H. destruct H as [-> | [-> | [-> | ->]]]; repeat split; reflexivity. Qed.
+Lemma eq_tail_ok d : tail_ok (61 :: d).
+Proof. repeat split; reflexivity. Qed.
+
+Lemma san_at_castle_short d : deco_str d = true ->
+  san_at ([79;45;79] ++ d) = Some (mk_sf None None None TOO None).
+Proof.
+  destruct d as [|c d]; [intros _; vm_compute; reflexivity|].
+  cbn [deco_str forallb]. intros H. apply andb_prop in H. destruct H as (H & _).
+  apply deco_cases in H. destruct H as [-> | [-> | [-> | ->]]]; vm_compute; reflexivity.
+Qed.
+Lemma san_at_castle_long d : deco_str d = true ->
+  san_at ([79;45;79;45;79] ++ d) = Some (mk_sf None None None TOOO None).
+Proof.
+  destruct d as [|c d]; [intros _; vm_compute; reflexivity|].
+  cbn [deco_str forallb]. intros H. apply andb_prop in H. destruct H as (H & _).
+  apply deco_cases in H. destruct H as [-> | [-> | [-> | ->]]]; vm_compute; reflexivity.
+Qed.
+Lemma san_find_at s f : san_at s = Some f -> san_find s = Some f.
+Proof. intros H. destruct s; cbn [san_find]; rewrite H; reflexivity. Qed.
+
+(** ** F. Which legal moves fit the matched groups *)
+Lemma san_fits_noncastle p f m : mtype m <> 3 -> san_fits p f m = san_normal_fits p f m.
+Proof. intros H. unfold san_fits, CASTLING. destruct (N.eqb_spec (mtype m) 3); [contradiction|reflexivity]. Qed.
+Lemma san_fits_sq p f m a b : sf_target f = TSq a b -> san_fits p f m = true -> san_normal_fits p f m = true.
+Proof.
+  intros Ht. unfold san_fits. destruct (mtype m =? CASTLING); [|auto].
+  destruct ((mto m =? 6) || (mto m =? 62)); [rewrite Ht; cbn [target_eqb]; auto|].
+  destruct ((mto m =? 2) || (mto m =? 58)); [rewrite Ht; cbn [target_eqb]; auto|discriminate].
+Qed.
+
+Definition nf_spec (p : pos) (g1 g2 g3 : option N) (t : N) (g6 : option N) (m' : mv) : Prop :=
+  mto m' = t /\
+  match g1 with None => type_of (piece_at p (mfrom m')) = PAWN
+              | Some L => pt_char (type_of (piece_at p (mfrom m'))) = L end /\
+  match g2 with None => True | Some c => 97 + file_of (mfrom m') = c end /\
+  match g3 with None => True | Some c => 49 + rank_of (mfrom m') = c end /\
+  match g6 with None => mtype m' <> 1 | Some c => pt_char (mprom m') = c end.
+
+Lemma nf_iff p g1 g2 g3 t g6 m' : t < 64 -> mto m' < 64 ->
+  san_normal_fits p (mk_sf g1 g2 g3 (TSq (file_ch t) (rank_ch t)) g6) m' = true <-> nf_spec p g1 g2 g3 t g6 m'.
+Proof.
+  intros Ht Ht'. unfold san_normal_fits, nf_spec. cbn [sf_piece sf_file sf_rank sf_target sf_prom].
+  rewrite square_string_valid by exact Ht'. repeat rewrite andb_true_iff.
+  assert (E1 : str_eqb (sq_name (mto m')) [file_ch t; rank_ch t] = true <-> mto m' = t).
+  { split; [intros H; apply str_eqb_eq in H; apply sq_name_inj; exact H|intros ->; apply str_eqb_refl]. }
+  assert (E2 : negb ((is_none g1 || negb (opt_is g1 (pt_char (type_of (piece_at p (mfrom m'))))))
+                     && (negb (is_none g1) || negb (type_of (piece_at p (mfrom m')) =? PAWN))) = true
+               <-> match g1 with None => type_of (piece_at p (mfrom m')) = PAWN
+                   | Some L => pt_char (type_of (piece_at p (mfrom m'))) = L end).
+  { destruct g1 as [L|]; cbn [is_none opt_is negb orb andb].
+    - rewrite andb_true_r, negb_involutive, N.eqb_eq. split; congruence.
+    - rewrite negb_involutive, N.eqb_eq. tauto. }
+  assert (E3 : forall g v, is_none g || opt_is g v = true <-> match g with None => True | Some c => v = c end).
+  { intros [c|] v; cbn [is_none opt_is orb]; [rewrite N.eqb_eq; split; congruence|tauto]. }
+  assert (E6 : negb ((negb (is_none g6) && negb (opt_is g6 (pt_char (mprom m')))) || (is_none g6 && (mtype m' =? PROMOTION))) = true
+               <-> match g6 with None => mtype m' <> 1 | Some c => pt_char (mprom m') = c end).
+  { destruct g6 as [c|]; cbn [is_none opt_is negb orb andb].
+    - rewrite orb_false_r, negb_involutive, N.eqb_eq. split; congruence.
+    - unfold PROMOTION. rewrite negb_true_iff, N.eqb_neq. tauto. }
+  rewrite E1, E2, !E3, E6. tauto.
+Qed.
+
+(* legal positions: what we use *)
+Lemma legal_pos_facts p : legal_pos p = true ->
+  length (brd p) = 64%nat /\
+  (forall pc, In pc (brd p) -> In pc [0;1;2;3;4;5;6;9;10;11;12;13;14]) /\
+  stm p < 2 /\ ep_ok p = true.
+Proof.
+  unfold legal_pos. repeat rewrite andb_true_iff.
+  intros (((((((((L1 & L2) & L3) & L4) & L5) & L6) & L7) & L8) & L9) & L10).
+  split; [apply Nat.eqb_eq; exact L1|]. split; [|split; [apply N.ltb_lt; exact L5|exact L10]].
+  intros pc Hin. rewrite forallb_forall in L2. specialize (L2 pc Hin). apply existsb_exists in L2.
+  destruct L2 as (x & Hx & E). apply N.eqb_eq in E. subst. exact Hx.
+Qed.
+
+Lemma own_type_valid p s : legal_pos p = true -> s < 64 -> own p s -> 1 <= type_of (piece_at p s) <= 6.
+Proof.
+  intros Hl Hs (Hne & _). destruct (legal_pos_facts p Hl) as (Hlen & Hval & _).
+  assert (Hin : In (piece_at p s) (brd p)).
+  { unfold piece_at, at_. apply nth_In. lia. }
+  apply Hval in Hin. unfold type_of. cbn [In] in Hin.
+  repeat (destruct Hin as [E|Hin]; [rewrite <- E in *; first [exfalso; apply Hne; reflexivity | vm_compute; split; discriminate]|]). destruct Hin.
+Qed.
+
+Lemma ep_ok_facts p : ep_ok p = true -> stm p < 2 -> ep p < 64 ->
+  (stm p = 0 /\ ep p / 8 = 5 /\ exists q, q + 8 = ep p /\ piece_at p q = mk_piece 1 PAWN) \/
+  (stm p = 1 /\ ep p / 8 = 2 /\ exists q, q = ep p + 8 /\ piece_at p q = mk_piece 0 PAWN).
+Proof.
+  unfold ep_ok. cbv zeta. intros H Hc He. destruct (N.eqb_spec (ep p) 64) as [E|_]; [lia|].
+  repeat rewrite andb_true_iff in H. destruct H as (((Hr & _) & Hq) & _).
+  destruct (step (fwd (flip (stm p))) (ep p)) as [q|] eqn:Eq; [|discriminate Hq].
+  apply N.eqb_eq in Hq, Hr. apply fwd_char in Eq; [|exact He]. rewrite rank_of_div in Hr.
+  unfold flip, WHITE in *.
+  assert (Hc' : stm p = 0 \/ stm p = 1) by lia. destruct Hc' as [C|C]; rewrite C in *.
+  - left. split; [reflexivity|]. split; [exact Hr|]. exists q. split; [cbn in Eq; lia|exact Hq].
+  - right. split; [reflexivity|]. split; [exact Hr|]. exists q. split; [cbn in Eq; lia|exact Hq].
+Qed.
+
+(** ** G. Uniqueness of the fitting move *)
+Ltac geo :=
+  repeat match goal with
+         | H : step (fwd _) ?a = Some ?b |- _ =>
+             let Hb := fresh "Hb" in assert (Hb : b < 64) by (eapply step_lt; exact H);
+             apply fwd_char in H; [|assumption]
+         | H : In _ (pawn_attack_targets _ _) |- _ => apply pat_char in H; [|assumption]
+         end.
+
+Lemma colour_of_mk c t : t < 8 -> colour_of (mk_piece c t) = c.
+Proof. unfold colour_of, mk_piece. lia. Qed.
+
+Lemma pseudo_pawn_class p m : In m (pseudo p) -> mover_type p m = PAWN -> cls_pawn p m.
+Proof.
+  intros H Hty. apply pseudo_class in H. destruct H as (_ & _ & _ & [C|[C|C]]); [| |exact C]; exfalso.
+  - destruct C as (_ & _ & C & _). unfold mover_type in Hty. rewrite C, type_of_king in Hty. discriminate Hty.
+  - destruct C as (_ & _ & C & _). contradiction.
+Qed.
+
+Lemma is_capture_false p m : piece_at p (mto m) = 0 -> mtype m <> 2 -> is_capture p m = false.
+Proof. intros H1 H2. unfold is_capture, ENPASSANT. rewrite H1. destruct (N.eqb_spec (mtype m) 2); [contradiction|reflexivity]. Qed.
+Lemma enemy_occupied b c t : enemy b c t = true -> at_ b t <> 0.
+Proof. unfold enemy. cbv zeta. destruct (N.eqb_spec (at_ b t) 0); [discriminate|auto]. Qed.
+
+(* a pawn move in SAN form (no piece letter; file of origin iff capture; promotion piece iff
+   promotion) fits exactly one pseudo-legal move *)
+Lemma pawn_unique p m m' :
+  legal_pos p = true -> In m (pseudo p) -> In m' (pseudo p) -> mover_type p m = PAWN ->
+  nf_spec p None (if is_capture p m then Some (file_ch (mfrom m)) else None) None (mto m)
+          (if mtype m =? 1 then Some (pt_letter (mprom m)) else None) m' ->
+  m' = m.
+Proof.
+  intros Hl Hm Hm' Hty (Hto & Hty' & Hfile & _ & Hprom).
+  destruct (legal_pos_facts p Hl) as (_ & _ & Hc & Hep).
+  pose proof (pseudo_class p m Hm) as (Hs & Ht & Hown & _).
+  pose proof (pseudo_class p m' Hm') as (Hs' & Ht' & Hown' & _).
+  pose proof (pseudo_pawn_class p m Hm Hty) as (_ & K).
+  pose proof (pseudo_pawn_class p m' Hm' Hty') as (_ & K').
+  pose proof (pseudo_prom_range p m Hm) as Hr. pose proof (pseudo_prom_range p m' Hm') as Hr'.
+  cbv zeta in K, K'. rewrite Hto in K'.
+  unfold own, piece_at in Hown, Hown'. destruct Hown as (Hne & Hcol). destruct Hown' as (Hne' & Hcol').
+  (* the en-passant square of a legal position *)
+  assert (HepF : mto m = ep p ->
+            (stm p = 0 /\ mto m / 8 = 5 /\ exists q, q + 8 = mto m /\ at_ (brd p) q = mk_piece 1 PAWN) \/
+            (stm p = 1 /\ mto m / 8 = 2 /\ exists q, q = mto m + 8 /\ at_ (brd p) q = mk_piece 0 PAWN)).
+  { intros E. rewrite E in *. apply ep_ok_facts; assumption. }
+  (* (B) promotion-ness agrees *)
+  assert (HB : mtype m' = 1 <-> mtype m = 1).
+  { destruct (N.eqb_spec (mtype m) 1) as [Hy|Hy]; [|tauto].
+    split; [auto|intros _].
+    assert (Hlast : rank_of (mto m) = last_rank (stm p)).
+    { unfold promo_kind in K. destruct K as [(Kk & _)|[(Kk & _)|[(Kk & _)|(Kk & _)]]]; try congruence;
+        destruct Kk as [(Kk & _)|(_ & _ & Kk)]; congruence. }
+    unfold promo_kind in K'. rewrite Hto in K'.
+    destruct K' as [(Kk & _)|[(Y & _ & _ & R & u & S1 & S2 & _)|[(Kk & _)|(Y & _ & _ & _ & X & _)]]].
+    - destruct Kk as [(_ & _ & Kk)|(Kk & _)]; [contradiction|exact Kk].
+    - exfalso. geo. rewrite rank_of_div in *. unfold last_rank, start_rank, WHITE in *.
+      destruct (N.eqb_spec (stm p) 0); lia.
+    - destruct Kk as [(_ & _ & Kk)|(Kk & _)]; [contradiction|exact Kk].
+    - exfalso. specialize (HepF X). rewrite rank_of_div in *. unfold last_rank, WHITE in *.
+      destruct (N.eqb_spec (stm p) 0); lia. }
+  (* (C) the promotion piece agrees *)
+  assert (HC : mtype m' = 1 -> mprom m' = mprom m).
+  { intros Hy'. assert (Hy : mtype m = 1) by tauto. rewrite Hy in Hprom. cbn [N.eqb Pos.eqb] in Hprom.
+    rewrite pt_letter_char36 in Hprom by auto. apply pt_char_inj36; auto. }
+  (* (A) same origin *)
+  assert (HA : mfrom m' = mfrom m).
+  { destruct K as [(Kk & E0 & S)|[(Y & _ & E0 & R & u & S1 & S2 & Eu)|[(Kk & I & En)|(Y & _ & I & En & X & E0)]]].
+    - (* m is a single push: not a capture *)
+      assert (Hnc : is_capture p m = false).
+      { apply is_capture_false; [exact E0|]. destruct Kk as [(Kk & _)|(Kk & _)]; congruence. }
+      destruct K' as [(_ & _ & S')|[(_ & _ & _ & _ & u' & S1' & S2' & Eu')|[(_ & _ & En')|(_ & _ & I' & _ & X' & _)]]].
+      + geo. lia.
+      + exfalso. geo. assert (u' = mfrom m) by lia. subst u'. contradiction.
+      + exfalso. apply enemy_occupied in En'. contradiction.
+      + exfalso. specialize (HepF X'). geo.
+        destruct HepF as [(C0 & _ & q & Hq & Hpc)|(C1 & _ & q & Hq & Hpc)].
+        * assert (Eq : q = mfrom m) by lia. rewrite Eq in Hpc. rewrite Hpc in Hcol. rewrite colour_of_mk in Hcol by (vm_compute; reflexivity). lia.
+        * assert (Eq : q = mfrom m) by lia. rewrite Eq in Hpc. rewrite Hpc in Hcol. rewrite colour_of_mk in Hcol by (vm_compute; reflexivity). lia.
+    - (* m is a double push *)
+      destruct K' as [(_ & _ & S')|[(_ & _ & _ & _ & u' & S1' & S2' & Eu')|[(_ & _ & En')|(_ & _ & I' & _ & X' & _)]]].
+      + exfalso. geo. assert (u = mfrom m') by lia. subst u. contradiction.
+      + geo. lia.
+      + exfalso. apply enemy_occupied in En'. contradiction.
+      + exfalso. specialize (HepF X'). geo. rewrite rank_of_div in R. unfold start_rank, WHITE in R.
+        destruct (N.eqb_spec (stm p) 0); lia.
+    - (* m is a capture: the origin file is given *)
+      assert (Hcap : is_capture p m = true).
+      { unfold is_capture. apply enemy_occupied in En. unfold piece_at. destruct (N.eqb_spec (at_ (brd p) (mto m)) 0); [contradiction|reflexivity]. }
+      rewrite Hcap in Hfile. unfold file_ch in Hfile. rewrite !file_of_mod in Hfile.
+      clear HepF HB HC Hr Hr' Hprom Hep Hl Hm Hm' Hne Hne' Hcol Hcol' Hty Hty';
+      destruct K' as [(_ & _ & S')|[(_ & _ & _ & _ & u' & S1' & S2' & _)|[(_ & I' & _)|(_ & _ & I' & _)]]]; geo; lia.
+    - (* m is an en-passant capture *)
+      assert (Hcap : is_capture p m = true).
+      { unfold is_capture, ENPASSANT. rewrite Y. apply orb_true_r. }
+      rewrite Hcap in Hfile. unfold file_ch in Hfile. rewrite !file_of_mod in Hfile.
+      clear HepF HB HC Hr Hr' Hprom Hep Hl Hm Hm' Hne Hne' Hcol Hcol' Hty Hty';
+      destruct K' as [(_ & _ & S')|[(_ & _ & _ & _ & u' & S1' & S2' & _)|[(_ & I' & _)|(_ & _ & I' & _)]]]; geo; lia. }
+  apply (pseudo_key_inj p); assumption.
+Qed.
+
+Lemma pt_char_letter_inj ty a : ty = 1 \/ ty = 3 \/ ty = 4 \/ ty = 5 \/ ty = 6 -> pt_char a = pt_letter ty -> a = ty.
+Proof.
+  intros Hty. unfold pt_char.
+  destruct (N.eqb_spec a 1) as [->|]; [destruct Hty as [-> | [-> | [-> | [-> | ->]]]]; vm_compute; intros H; try reflexivity; discriminate H|].
+  destruct (N.eqb_spec a 2) as [->|]; [destruct Hty as [-> | [-> | [-> | [-> | ->]]]]; vm_compute; intros H; try reflexivity; discriminate H|].
+  destruct (N.eqb_spec a 3) as [->|]; [destruct Hty as [-> | [-> | [-> | [-> | ->]]]]; vm_compute; intros H; try reflexivity; discriminate H|].
+  destruct (N.eqb_spec a 4) as [->|]; [destruct Hty as [-> | [-> | [-> | [-> | ->]]]]; vm_compute; intros H; try reflexivity; discriminate H|].
+  destruct (N.eqb_spec a 5) as [->|]; [destruct Hty as [-> | [-> | [-> | [-> | ->]]]]; vm_compute; intros H; try reflexivity; discriminate H|].
+  destruct (N.eqb_spec a 6) as [->|]; [destruct Hty as [-> | [-> | [-> | [-> | ->]]]]; vm_compute; intros H; try reflexivity; discriminate H|].
+  destruct Hty as [-> | [-> | [-> | [-> | ->]]]]; vm_compute; intros H; discriminate H.
+Qed.
+
+(* minimal disambiguation as two optional characters *)
+Definition disamb_fields (p : pos) (m : mv) : option N * option N :=
+  let r := rivals p m in
+  match r with
+  | [] => (None, None)
+  | _ => if negb (existsb (fun m' => file_of (mfrom m') =? file_of (mfrom m)) r) then (Some (file_ch (mfrom m)), None)
+         else if negb (existsb (fun m' => rank_of (mfrom m') =? rank_of (mfrom m)) r) then (None, Some (rank_ch (mfrom m)))
+         else (Some (file_ch (mfrom m)), Some (rank_ch (mfrom m)))
+  end.
+Lemma disamb_as_fields p m : disamb p m = o2l (fst (disamb_fields p m)) ++ o2l (snd (disamb_fields p m)).
+Proof.
+  unfold disamb, disamb_fields. cbv zeta. destruct (rivals p m); [reflexivity|].
+  destruct (negb _); [reflexivity|]. destruct (negb _); reflexivity.
+Qed.
+
+Lemma piece_unique p m m' :
+  In m (legal p) -> In m' (legal p) ->
+  (let ty := mover_type p m in ty = 1 \/ ty = 3 \/ ty = 4 \/ ty = 5 \/ ty = 6) ->
+  mtype m <> 1 ->
+  nf_spec p (Some (pt_letter (mover_type p m))) (fst (disamb_fields p m)) (snd (disamb_fields p m)) (mto m) None m' ->
+  m' = m.
+Proof.
+  intros Hm Hm' Hty Hnp (Hto & Hty' & Hfile & Hrank & Hprom). cbv zeta in Hty.
+  apply pt_char_letter_inj in Hty'; [|exact Hty].
+  destruct (N.eq_dec (mfrom m') (mfrom m)) as [Ef|Ef].
+  { apply (pseudo_key_inj p); try (apply legal_in_pseudo; assumption); try assumption; tauto. }
+  exfalso.
+  assert (Hriv : In m' (rivals p m)).
+  { unfold rivals. apply filter_In. split; [exact Hm'|]. unfold mover_type.
+    rewrite Hto, Hty'. rewrite !N.eqb_refl. cbn [andb]. apply negb_true_iff. apply N.eqb_neq. exact Ef. }
+  unfold disamb_fields in Hfile, Hrank. cbv zeta in Hfile, Hrank.
+  destruct (rivals p m) as [|r0 rs] eqn:Er; [destruct Hriv|]. rewrite <- Er in *. clear Er.
+  destruct (existsb (fun m'0 => file_of (mfrom m'0) =? file_of (mfrom m)) (rivals p m)) eqn:E1; cbn [negb fst snd] in Hfile, Hrank.
+  - destruct (existsb (fun m'0 => rank_of (mfrom m'0) =? rank_of (mfrom m)) (rivals p m)) eqn:E2; cbn [negb fst snd] in Hfile, Hrank.
+    + unfold file_ch, rank_ch in *. pose proof (sq_of_file_rank (mfrom m)). pose proof (sq_of_file_rank (mfrom m')). lia.
+    + assert (existsb (fun m'0 => rank_of (mfrom m'0) =? rank_of (mfrom m)) (rivals p m) = true).
+      { apply existsb_exists. exists m'. split; [exact Hriv|]. unfold rank_ch in Hrank. apply N.eqb_eq. lia. }
+      congruence.
+  - assert (existsb (fun m'0 => file_of (mfrom m'0) =? file_of (mfrom m)) (rivals p m) = true).
+    { apply existsb_exists. exists m'. split; [exact Hriv|]. unfold file_ch in Hfile. apply N.eqb_eq. lia. }
+    congruence.
+Qed.
+
+(** ** H. SAN round trip *)
+Lemma pseudo_castle_class p m : In m (pseudo p) -> mtype m = 3 -> cls_castle p m.
+Proof.
+  intros H Hty. apply pseudo_class in H. destruct H as (_ & _ & _ & [C|[C|C]]); [exact C| |]; exfalso.
+  - destruct C as (C & _). congruence.
+  - destruct C as (_ & C). cbv zeta in C. unfold promo_kind in C.
+    destruct C as [(K & _)|[(K & _)|[(K & _)|(K & _)]]]; try congruence; destruct K as [(K & _)|(K & _)]; congruence.
+Qed.
+Lemma pseudo_simple_class p m : In m (pseudo p) -> mtype m <> 3 -> mover_type p m <> PAWN -> cls_simple p m.
+Proof.
+  intros H Hty Hmt. apply pseudo_class in H. destruct H as (_ & _ & _ & [C|[C|C]]); [|exact C|]; exfalso.
+  - destruct C as (C & _). congruence.
+  - destruct C as (C & _). contradiction.
+Qed.
+
+Lemma disamb_fields_ok p m : mfrom m < 64 ->
+  opt_ok c_file (fst (disamb_fields p m)) /\ opt_ok c_rank (snd (disamb_fields p m)).
+Proof.
+  intros Hs. unfold disamb_fields. cbv zeta.
+  pose proof (file_is_c_file _ (file_ch_class (mfrom m))) as Hf.
+  pose proof (rank_is_c_rank _ (rank_ch_class (mfrom m) Hs)) as Hr.
+  destruct (rivals p m); [split; exact I|]. destruct (negb _); [split; [exact Hf|exact I]|].
+  destruct (negb _); split; try exact I; assumption.
+Qed.
+
+Lemma piece_letter_class ty : ty = 1 \/ ty = 3 \/ ty = 4 \/ ty = 5 \/ ty = 6 -> c_piece (pt_letter ty).
+Proof. intros [-> | [-> | [-> | [-> | ->]]]]; reflexivity. Qed.
+
+(* the heart: the matched groups of the printed move select exactly this move *)
+Lemma san_body_selects p m usex useeq d :
+  legal_pos p = true -> In m (legal p) -> deco_str d = true ->
+  exists f, san_find (san_body usex useeq p m ++ d) = Some f /\ san_fits p f m = true /\
+            forall m', In m' (legal p) -> san_fits p f m' = true -> m' = m.
+Proof.
+  intros Hl Hm Hd. pose proof (legal_in_pseudo p m Hm) as Hps.
+  pose proof (pseudo_class p m Hps) as (Hs & Ht & Hown & _).
+  unfold san_body. unfold CASTLING. destruct (N.eqb_spec (mtype m) 3) as [Hc|Hnc].
+  - (* castling *)
+    pose proof (pseudo_castle_class p m Hps Hc) as (_ & Hpr & _ & Hsq).
+    assert (Huniq : forall tg, (tg = TOO /\ (mto m = 6 \/ mto m = 62)) \/ (tg = TOOO /\ (mto m = 2 \/ mto m = 58)) ->
+              san_fits p (mk_sf None None None tg None) m = true /\
+              forall m', In m' (legal p) -> san_fits p (mk_sf None None None tg None) m' = true -> m' = m).
+    { intros tg Htg. split.
+      - unfold san_fits, CASTLING. rewrite Hc. cbn [N.eqb Pos.eqb].
+        destruct Htg as [(-> & [E|E])|(-> & [E|E])]; rewrite E; reflexivity.
+      - intros m' Hm' Hfit. pose proof (legal_in_pseudo p m' Hm') as Hps'.
+        unfold san_fits, CASTLING in Hfit. destruct (N.eqb_spec (mtype m') 3) as [Hc'|Hnc'].
+        + pose proof (pseudo_castle_class p m' Hps' Hc') as (_ & Hpr' & _ & Hsq').
+          assert (Hto : mto m' = mto m).
+          { destruct Htg as [(-> & E)|(-> & E)]; cbn [sf_target] in Hfit;
+              destruct Hsq as [(C0 & _ & Q)|(C1 & _ & Q)], Hsq' as [(C0' & _ & Q')|(C1' & _ & Q')]; try contradiction;
+              destruct Q as [Q|Q], Q' as [Q'|Q']; rewrite ?Q, ?Q' in *; try reflexivity; try lia;
+              vm_compute in Hfit; discriminate Hfit. }
+          apply mv_eq; try congruence. destruct Hsq as [(C0 & F & _)|(C1 & F & _)], Hsq' as [(C0' & F' & _)|(C1' & F' & _)]; congruence.
+        + unfold san_normal_fits in Hfit. cbn [sf_target] in Hfit.
+          destruct Htg as [(-> & _)|(-> & _)]; discriminate Hfit. }
+    destruct (N.eqb_spec (file_of (mto m)) 6) as [E6|E6].
+    + exists (mk_sf None None None TOO None). split; [apply san_find_at; apply san_at_castle_short; exact Hd|].
+      apply Huniq. left. split; [reflexivity|]. rewrite file_of_mod in E6. lia.
+    + exists (mk_sf None None None TOOO None). split; [apply san_find_at; apply san_at_castle_long; exact Hd|].
+      apply Huniq. right. split; [reflexivity|]. rewrite file_of_mod in E6. lia.
+  - cbv zeta. destruct (N.eqb_spec (mover_type p m) PAWN) as [Hp|Hnp].
+    + (* pawn *)
+      pose proof (pseudo_prom_range p m Hps) as Hpr.
+      set (g2 := if is_capture p m then Some (file_ch (mfrom m)) else None).
+      set (X := if is_capture p m && usex then Some 120 else None).
+      set (g6 := if mtype m =? 1 then Some (pt_letter (mprom m)) else None).
+      set (T := (if mtype m =? PROMOTION then (if useeq then [61] else []) ++ [pt_letter (mprom m)] else []) ++ d).
+      exists (mk_sf None g2 None (TSq (file_ch (mto m)) (rank_ch (mto m))) g6).
+      split; [|split].
+      * apply san_find_at.
+        replace (((if is_capture p m then [file_ch (mfrom m)] else []) ++ (if is_capture p m && usex then [120] else []) ++
+                  sq_name (mto m) ++ (if mtype m =? PROMOTION then (if useeq then [61] else []) ++ [pt_letter (mprom m)] else [])) ++ d)
+          with (o2l None ++ o2l g2 ++ o2l None ++ o2l X ++ [file_ch (mto m); rank_ch (mto m)] ++ T).
+        2:{ unfold g2, X, T, sq_name. destruct (is_capture p m), usex; cbn [andb o2l app]; rewrite <- ?app_assoc; reflexivity. }
+        assert (Hg6 : san_g6 T = g6 /\ tail_ok T).
+        { unfold T, g6, PROMOTION. destruct (N.eqb_spec (mtype m) 1) as [Hy|Hy].
+          - specialize (Hpr Hy). assert (Hpc : is_prom_ch (pt_letter (mprom m)) = true) by (rewrite pt_letter_char36 by exact Hpr; apply pt_char36_prom; exact Hpr).
+            destruct useeq; cbn [app]; [split; [apply san_g6_eq; exact Hpc|apply eq_tail_ok]|split; [apply san_g6_noeq; exact Hpc|apply prom_tail_ok; exact Hpc]].
+          - cbn [app]. split; [apply san_g6_deco; exact Hd|apply deco_tail_ok; exact Hd]. }
+        destruct Hg6 as (<- & HT).
+        apply san_at_shape; try exact I; try exact HT.
+        -- unfold g2. destruct (is_capture p m); [apply file_is_c_file, file_ch_class|exact I].
+        -- unfold X. destruct (is_capture p m && usex); [exact x_is_c_x|exact I].
+        -- apply file_is_c_file, file_ch_class.
+        -- apply rank_is_c_rank, rank_ch_class; exact Ht.
+      * rewrite san_fits_noncastle by exact Hnc. apply nf_iff; [exact Ht|exact Ht|]. unfold nf_spec. split; [reflexivity|].
+        split; [exact Hp|]. split; [unfold g2; destruct (is_capture p m); [reflexivity|exact I]|]. split; [exact I|].
+        unfold g6. destruct (N.eqb_spec (mtype m) 1) as [Hy|Hy]; [symmetry; apply pt_letter_char36; auto|exact Hy].
+      * intros m' Hm' Hfit. pose proof (legal_in_pseudo p m' Hm') as Hps'.
+        pose proof (pseudo_class p m' Hps') as (_ & Ht' & _).
+        apply san_fits_sq with (a := file_ch (mto m)) (b := rank_ch (mto m)) in Hfit; [|reflexivity].
+        apply nf_iff in Hfit; [|exact Ht|exact Ht'].
+        apply (pawn_unique p m m' Hl Hps Hps' Hp). exact Hfit.
+    + (* piece *)
+      pose proof (own_type_valid p (mfrom m) Hl Hs Hown) as Hrange. fold (mover_type p m) in Hrange.
+      assert (Hty : mover_type p m = 1 \/ mover_type p m = 3 \/ mover_type p m = 4 \/ mover_type p m = 5 \/ mover_type p m = 6)
+        by (unfold PAWN in Hnp; lia).
+      pose proof (pseudo_simple_class p m Hps Hnc Hnp) as (Hy0 & _).
+      destruct (disamb_fields_ok p m Hs) as (Hdf & Hdr).
+      set (X := if is_capture p m && usex then Some 120 else None).
+      exists (mk_sf (Some (pt_letter (mover_type p m))) (fst (disamb_fields p m)) (snd (disamb_fields p m))
+                    (TSq (file_ch (mto m)) (rank_ch (mto m))) None).
+      split; [|split].
+      * apply san_find_at. rewrite disamb_as_fields.
+        replace (([pt_letter (mover_type p m)] ++ (o2l (fst (disamb_fields p m)) ++ o2l (snd (disamb_fields p m))) ++
+                  (if is_capture p m && usex then [120] else []) ++ sq_name (mto m)) ++ d)
+          with (o2l (Some (pt_letter (mover_type p m))) ++ o2l (fst (disamb_fields p m)) ++ o2l (snd (disamb_fields p m)) ++
+                o2l X ++ [file_ch (mto m); rank_ch (mto m)] ++ d).
+        2:{ unfold X, sq_name. destruct (is_capture p m && usex); cbn [o2l app]; rewrite <- ?app_assoc; cbn [app]; rewrite <- ?app_assoc; reflexivity. }
+        rewrite <- (san_g6_deco d Hd).
+        apply san_at_shape; try assumption.
+        -- apply piece_letter_class. exact Hty.
+        -- unfold X. destruct (is_capture p m && usex); [exact x_is_c_x|exact I].
+        -- apply file_is_c_file, file_ch_class.
+        -- apply rank_is_c_rank, rank_ch_class; exact Ht.
+        -- apply deco_tail_ok; exact Hd.
+      * rewrite san_fits_noncastle by exact Hnc. apply nf_iff; [exact Ht|exact Ht|]. unfold nf_spec. split; [reflexivity|].
+        split; [fold (mover_type p m); destruct Hty as [E|[E|[E|[E|E]]]]; rewrite E; reflexivity|].
+        unfold disamb_fields. cbv zeta. split; [|split; [|congruence]].
+        -- destruct (rivals p m); [exact I|]. destruct (negb _); [reflexivity|]. destruct (negb _); [exact I|reflexivity].
+        -- destruct (rivals p m); [exact I|]. destruct (negb _); [exact I|]. destruct (negb _); reflexivity.
+      * intros m' Hm' Hfit. pose proof (legal_in_pseudo p m' Hm') as Hps'.
+        pose proof (pseudo_class p m' Hps') as (_ & Ht' & _).
+        apply san_fits_sq with (a := file_ch (mto m)) (b := rank_ch (mto m)) in Hfit; [|reflexivity].
+        apply nf_iff in Hfit; [|exact Ht|exact Ht'].
+        apply (piece_unique p m m' Hm Hm' Hty); [congruence|exact Hfit].
+Qed.
+
+(** san_roundtrip (strong form): for every legal position, every legal move, both spellings
+    of a capture (with / without "x"), both spellings of a promotion (with / without "="),
+    and EVERY decoration string over ! ? + #, the engine's SAN parser returns exactly the move. *)
+Theorem san_roundtrip_eq : forall p m, legal_pos p = true -> In m (legal p) ->
+  forall usex useeq d, deco_str d = true -> from_san p (san_body usex useeq p m ++ d) = Some m.
+Proof.
+  intros p m Hl Hm usex useeq d Hd.
+  destruct (san_body_selects p m usex useeq d Hl Hm Hd) as (f & Hfind & Hself & Huniq).
+  unfold from_san. rewrite Hfind.
+  rewrite (filter_unique (san_fits p f) (legal p) m (legal_NoDup p) Hm Hself Huniq). reflexivity.
+Qed.
+
+Theorem san_roundtrip : forall p m, legal_pos p = true -> In m (legal p) ->
+  forall d, deco_str d = true ->
+  exists m', from_san p (san_str_nodeco p m ++ d) = Some m' /\ code m' = code m.
+Proof.
+  intros p m Hl Hm d Hd. exists m. split; [|reflexivity]. apply san_roundtrip_eq; assumption.
+Qed.
+
+(* the standard SAN with its own check / mate sign *)
+Corollary san_roundtrip_std : forall p m, legal_pos p = true -> In m (legal p) -> from_san p (san_str p m) = Some m.
+Proof.
+  intros p m Hl Hm. unfold san_str, san_str_nodeco. apply san_roundtrip_eq; try assumption.
+  unfold san_suffix. destruct (gives_check p m); [|reflexivity]. destruct (legal (make p m)); reflexivity.
+Qed.
+
+(** san_ambiguous_none / san_no_match_none *)
+Theorem san_ambiguous_none : forall p s f m1 m2, san_find s = Some f ->
+  In m1 (legal p) -> In m2 (legal p) -> m1 <> m2 ->
+  san_fits p f m1 = true -> san_fits p f m2 = true -> from_san p s = None.
+Proof.
+  intros p s f m1 m2 Hf H1 H2 Hne F1 F2. unfold from_san. rewrite Hf.
+  destruct (filter (san_fits p f) (legal p)) as [|a [|b r]] eqn:E; try reflexivity. exfalso.
+  assert (I1 : In m1 (filter (san_fits p f) (legal p))) by (apply filter_In; tauto).
+  assert (I2 : In m2 (filter (san_fits p f) (legal p))) by (apply filter_In; tauto).
+  rewrite E in I1, I2. destruct I1 as [<-|[]], I2 as [<-|[]]. apply Hne. reflexivity.
+Qed.
+
+Theorem san_no_match_none : forall p s,
+  (san_find s = None \/ exists f, san_find s = Some f /\ forall m, In m (legal p) -> san_fits p f m = false) ->
+  from_san p s = None.
+Proof.
+  intros p s [H|(f & Hf & Hno)]; unfold from_san; rewrite ?H; [reflexivity|]. rewrite Hf.
+  destruct (filter (san_fits p f) (legal p)) as [|a r] eqn:E; [reflexivity|]. exfalso.
+  assert (I1 : In a (filter (san_fits p f) (legal p))) by (rewrite E; left; reflexivity).
+  apply filter_In in I1. destruct I1 as (I1 & I2). rewrite Hno in I2 by exact I1. discriminate I2.
+Qed.
+
+(* soundness: whatever is returned is a legal move that fits the matched groups, and it is the only one *)
+Theorem from_san_sound : forall p s m, from_san p s = Some m ->
+  In m (legal p) /\ exists f, san_find s = Some f /\ san_fits p f m = true /\
+     forall m', In m' (legal p) -> san_fits p f m' = true -> m' = m.
+Proof.
+  intros p s m. unfold from_san. destruct (san_find s) as [f|]; [|discriminate].
+  destruct (filter (san_fits p f) (legal p)) as [|a [|b r]] eqn:E; try discriminate. intros H. injection H as ->.
+  assert (I1 : In m (filter (san_fits p f) (legal p))) by (rewrite E; left; reflexivity).
+  apply filter_In in I1. split; [tauto|]. exists f. split; [reflexivity|]. split; [tauto|].
+  intros m' Hm' Hf'. assert (I2 : In m' (filter (san_fits p f) (legal p))) by (apply filter_In; tauto).
+  rewrite E in I2. destruct I2 as [<-|[]]. reflexivity.
+Qed.
+
+(** ** I. Findings: literal readings that are false for the engine (refuted twins) *)
+From Coq Require Import String Ascii.
+Open Scope list_scope. Open Scope N_scope.
+Definition s2l (s : string) : str := map N_of_ascii (list_ascii_of_string s).
+Definition omv_eqb (a : option mv) (b : option mv) : bool :=
+  match a, b with
+  | Some x, Some y => (mfrom x =? mfrom y) && (mto x =? mto y) && (mtype x =? mtype y) && (mprom x =? mprom y)
+  | None, None => true
+  | _, _ => false
+  end.
+Lemma omv_eqb_eq a b : omv_eqb a b = true -> a = b.
+Proof.
+  destruct a as [x|], b as [y|]; cbn; try discriminate; [|reflexivity].
+  repeat rewrite andb_true_iff. repeat rewrite N.eqb_eq. intros (((A & B) & C) & D). f_equal. apply mv_eq; assumption.
+Qed.
+Definition pos_of (fen : string) : pos := match parse (s2l fen) with Some p => p | None => start_pos end.
+
+(* is [s] one of the accepted spellings (any "x"/"=" variant, any decoration) of a legal move? *)
+Definition is_san_of_legal (p : pos) (s : str) : bool :=
+  existsb (fun m => existsb (fun ux => existsb (fun ue =>
+     let b := san_body ux ue p m in
+     str_eqb (firstn (List.length b) s) b && deco_str (skipn (List.length b) s)) [true; false]) [true; false]) (legal p).
+Lemma is_san_of_legal_complete p s m ux ue d :
+  In m (legal p) -> deco_str d = true -> s = san_body ux ue p m ++ d -> is_san_of_legal p s = true.
+Proof.
+  intros Hm Hd ->. unfold is_san_of_legal. apply existsb_exists. exists m. split; [exact Hm|].
+  apply existsb_exists. exists ux. split; [destruct ux; cbn; tauto|].
+  apply existsb_exists. exists ue. split; [destruct ue; cbn; tauto|].
+  cbv zeta. rewrite firstn_app, Nat.sub_diag, firstn_all, firstn_O, app_nil_r, str_eqb_refl.
+  rewrite skipn_app, Nat.sub_diag, skipn_all. cbn [skipn app andb]. exact Hd.
+Qed.
+Definition is_uci_of_legal (p : pos) (s : str) : bool :=
+  existsb (fun m => str_eqb s (uci_str m) || str_eqb s (string_uci m)) (legal p).
+Lemma is_uci_of_legal_complete p s m : In m (legal p) -> s = uci_str m \/ s = string_uci m -> is_uci_of_legal p s = true.
+Proof.
+  intros Hm Hs. unfold is_uci_of_legal. apply existsb_exists. exists m. split; [exact Hm|].
+  destruct Hs as [-> | ->]; rewrite str_eqb_refl; [reflexivity|apply orb_true_r].
+Qed.
+
+(** FINDING (unanchored regexUciMove): a string that is the UCI string of no legal move is
+    parsed to a move when it merely CONTAINS one: "xe2e4y" -> e2e4 in the start position. *)
+Theorem uci_strict_none_refuted :
+  ~ (forall p s, legal_pos p = true ->
+       (forall m, In m (legal p) -> s <> uci_str m /\ s <> string_uci m) -> from_uci p s = None).
+Proof.
+  intros H. specialize (H start_pos (s2l "xe2e4y") eq_refl).
+  assert (Hno : forall m, In m (legal start_pos) -> s2l "xe2e4y" <> uci_str m /\ s2l "xe2e4y" <> string_uci m).
+  { intros m Hm. assert (E : is_uci_of_legal start_pos (s2l "xe2e4y") = false) by (vm_compute; reflexivity).
+    split; intros Hs.
+    - pose proof (is_uci_of_legal_complete start_pos (s2l "xe2e4y") m Hm (or_introl Hs)) as E'. congruence.
+    - pose proof (is_uci_of_legal_complete start_pos (s2l "xe2e4y") m Hm (or_intror Hs)) as E'. congruence. }
+  specialize (H Hno). vm_compute in H. discriminate H.
+Qed.
+(* junk before / after is ignored; a wrong fifth letter is NOT ignored when it is a promotion letter *)
+Example uci_junk_examples :
+  from_uci start_pos (s2l "xe2e4y") = Some (mkmv 12 28 0 3) /\
+  from_uci start_pos (s2l "e2e4 e7e5") = Some (mkmv 12 28 0 3) /\
+  from_uci start_pos (s2l "position startpos moves g1f3") = Some (mkmv 6 21 0 3) /\
+  from_uci start_pos (s2l "e2e4q") = None /\
+  from_uci start_pos (s2l "e2e4k") = Some (mkmv 12 28 0 3) /\
+  from_uci start_pos (s2l "e2e5") = None /\
+  from_uci start_pos (s2l "e2") = None.
+Proof. vm_compute. repeat split. Qed.
+
+(** FINDING (unanchored regexSanMove, promotion test, castling fall-through): strings that are
+    the SAN of no legal move are parsed to a move. *)
+Theorem san_strict_none_refuted :
+  ~ (forall p s, legal_pos p = true ->
+       (forall m ux ue d, In m (legal p) -> deco_str d = true -> s <> san_body ux ue p m ++ d) ->
+       from_san p s = None).
+Proof.
+  intros H. specialize (H start_pos (s2l "e4=N") eq_refl).
+  assert (Hno : forall m ux ue d, In m (legal start_pos) -> deco_str d = true -> s2l "e4=N" <> san_body ux ue start_pos m ++ d).
+  { intros m ux ue d Hm Hd Hs.
+    assert (E : is_san_of_legal start_pos (s2l "e4=N") = false) by (vm_compute; reflexivity).
+    pose proof (is_san_of_legal_complete start_pos (s2l "e4=N") m ux ue d Hm Hd Hs) as E'. congruence. }
+  specialize (H Hno). vm_compute in H. discriminate H.
+Qed.
+Definition castle_pos := pos_of "r3k2r/8/8/8/8/8/8/R3K2R w KQkq - 0 1".
+Example san_junk_examples :
+  (* a promotion suffix "=N"/"N" on a move that is not a promotion is accepted (PromotionType() of a
+     non-promotion move is Knight) *)
+  from_san start_pos (s2l "e4=N") = Some (mkmv 12 28 0 3) /\
+  from_san start_pos (s2l "Nf3N") = Some (mkmv 6 21 0 3) /\
+  from_san start_pos (s2l "e4=Q") = None /\
+  (* junk around the move is ignored *)
+  from_san start_pos (s2l "1. e4 e5") = Some (mkmv 12 28 0 3) /\
+  from_san start_pos (s2l "xxNf3yy") = Some (mkmv 6 21 0 3) /\
+  (* "Kg1"/"Kc1" select the CASTLING move (the loop falls through to the normal-move test) *)
+  legal_pos castle_pos = true /\
+  from_san castle_pos (s2l "Kg1") = Some (mkmv 4 6 3 3) /\
+  from_san castle_pos (s2l "Kc1") = Some (mkmv 4 2 3 3) /\
+  is_san_of_legal castle_pos (s2l "Kg1") = false /\
+  from_san castle_pos (s2l "O-O") = Some (mkmv 4 6 3 3) /\
+  from_san castle_pos (s2l "O-O-O+!") = Some (mkmv 4 2 3 3) /\
+  from_san castle_pos (s2l "0-0") = None.
+Proof. vm_compute. repeat split. Qed.
+
+(** ** J. Non-vacuity: concrete positions, every legal move, printed and parsed back *)
+Definition roundtrip_all (p : pos) : bool :=
+  legal_pos p && negb (Nat.eqb (List.length (legal p)) 0) &&
+  forallb (fun m =>
+     omv_eqb (from_san p (san_str p m)) (Some m)
+     && omv_eqb (from_san p (san_str_nodeco p m)) (Some m)
+     && omv_eqb (from_san p (san_body false false p m ++ [33; 63])) (Some m)
+     && omv_eqb (from_uci p (uci_str m)) (Some m)
+     && omv_eqb (from_uci p (string_uci m)) (Some m)) (legal p).
+
+Example ex_start : roundtrip_all start_pos = true
+  /\ san_str start_pos (mkmv 6 21 0 3) = s2l "Nf3"
+  /\ from_san start_pos (s2l "Nf3") = Some (mkmv 6 21 0 3)
+  /\ from_uci start_pos (s2l "g1f3") = Some (mkmv 6 21 0 3)
+  /\ from_san start_pos (s2l "Nf4") = None.
+Proof. vm_compute. repeat split. Qed.
+
+(* two knights that reach the same square: file disambiguation; the bare "Nd2" is ambiguous *)
+Definition knights_pos := pos_of "4k3/8/8/8/8/8/8/1N2KN2 w - - 0 1".
+Example ex_knights : roundtrip_all knights_pos = true
+  /\ san_str knights_pos (mkmv 1 11 0 3) = s2l "Nbd2"
+  /\ san_str knights_pos (mkmv 5 11 0 3) = s2l "Nfd2"
+  /\ from_san knights_pos (s2l "Nbd2") = Some (mkmv 1 11 0 3)
+  /\ from_san knights_pos (s2l "Nd2") = None
+  /\ from_san knights_pos (s2l "N1d2") = None.
+Proof. vm_compute. repeat split. Qed.
+
+(* knights on the same file: rank disambiguation;  three queens: file + rank *)
+Definition knights_file_pos := pos_of "4k3/8/8/4N3/8/8/8/4N1K1 w - - 0 1".
+Definition queens_pos := pos_of "8/7k/8/8/Q7/8/8/Q2QK3 w - - 0 1".
+Example ex_rank_and_both : roundtrip_all knights_file_pos = true
+  /\ san_str knights_file_pos (mkmv 4 19 0 3) = s2l "N1d3"
+  /\ san_str knights_file_pos (mkmv 36 19 0 3) = s2l "N5d3"
+  /\ roundtrip_all queens_pos = true
+  /\ san_str queens_pos (mkmv 0 27 0 3) = s2l "Qa1d4"
+  /\ san_str queens_pos (mkmv 24 27 0 3) = s2l "Q4d4"
+  /\ san_str queens_pos (mkmv 3 27 0 3) = s2l "Qdd4"
+  /\ from_san queens_pos (s2l "Qad4") = None
+  /\ from_san queens_pos (s2l "Q1d4") = None.
+Proof. vm_compute. repeat split. Qed.
+
+(* promotion with and without capture, castling *)
+Definition promo_pos := pos_of "r1b1k2r/1P3ppp/8/8/8/8/P4PPP/R3K2R w KQkq - 0 1".
+Example ex_promo_castle : roundtrip_all promo_pos = true
+  /\ san_str promo_pos (mkmv 49 56 1 6) = s2l "bxa8=Q"
+  /\ san_str promo_pos (mkmv 49 58 1 3) = s2l "bxc8=N"
+  /\ san_str promo_pos (mkmv 49 57 1 5) = s2l "b8=R"
+  /\ from_san promo_pos (s2l "bxa8=Q") = Some (mkmv 49 56 1 6)
+  /\ from_san promo_pos (s2l "ba8Q") = Some (mkmv 49 56 1 6)
+  /\ from_san promo_pos (s2l "bxa8") = None
+  /\ from_uci promo_pos (s2l "b7a8q") = Some (mkmv 49 56 1 6)
+  /\ from_uci promo_pos (s2l "b7a8Q") = Some (mkmv 49 56 1 6)
+  /\ from_uci promo_pos (s2l "b7a8") = None
+  /\ from_san promo_pos (s2l "O-O") = Some (mkmv 4 6 3 3)
+  /\ from_san promo_pos (s2l "O-O-O") = Some (mkmv 4 2 3 3)
+  /\ from_uci promo_pos (s2l "e1g1") = Some (mkmv 4 6 3 3).
+Proof. vm_compute. repeat split. Qed.
+
+(* en passant *)
+Definition ep_pos := pos_of "4k3/8/8/3pP3/8/8/8/4K3 w - d6 0 2".
+Example ex_ep : roundtrip_all ep_pos = true
+  /\ san_str ep_pos (mkmv 36 43 2 3) = s2l "exd6"
+  /\ from_san ep_pos (s2l "exd6") = Some (mkmv 36 43 2 3)
+  /\ from_san ep_pos (s2l "ed6") = Some (mkmv 36 43 2 3)
+  /\ from_san ep_pos (s2l "e6") = Some (mkmv 36 44 0 3)
+  /\ from_uci ep_pos (s2l "e5d6") = Some (mkmv 36 43 2 3).
+Proof. vm_compute. repeat split. Qed.
+
+(* FINDING (protocol): the engine prints promotions with an UPPER-case letter ("b7a8Q", used for
+   bestmove / pv / currmove in internal/uci/uci.go), the UCI protocol prescribes lower case *)
+Example engine_uci_printer_uppercase :
+  string_uci (mkmv 49 56 1 6) = s2l "b7a8Q" /\ uci_str (mkmv 49 56 1 6) = s2l "b7a8q".
+Proof. vm_compute. split; reflexivity. Qed.
+
+(* a middle-game position with checks and mates in the suffix *)
+Definition kiwipete := pos_of "r3k2r/p1ppqpb1/bn2pnp1/3PN3/1p2P3/2N2Q1p/PPPBBPPP/R3K2R w KQkq - 0 1".
+Definition mate_pos := pos_of "6k1/5ppp/8/8/8/8/8/R3K2R w KQ - 0 1".
+Example ex_middle : roundtrip_all kiwipete = true /\ roundtrip_all mate_pos = true
+  /\ san_str mate_pos (mkmv 0 56 0 3) = s2l "Ra8#"
+  /\ san_str kiwipete (mkmv 21 53 0 3) = s2l "Qxf7+".
+Proof. vm_compute. repeat split. Qed.
+
+Print Assumptions uci_roundtrip.
+Print Assumptions uci_roundtrip_eq.
+Print Assumptions uci_roundtrip_engine_printer.
+Print Assumptions uci_unknown_none.
+Print Assumptions san_roundtrip.
+Print Assumptions san_roundtrip_eq.
+Print Assumptions san_roundtrip_std.
+Print Assumptions san_ambiguous_none.
+Print Assumptions san_no_match_none.
+Print Assumptions from_san_sound.
+Print Assumptions uci_strict_none_refuted.
+Print Assumptions san_strict_none_refuted.
